@@ -527,9 +527,14 @@ class UnionMetaType(StructureMetaType):
         # Try to write by largest field
         for field in fields:
             if isinstance(field.type, StructureMetaType) and field.name is None:
-                # Prefer to write regular fields initially
-                anonymous_struct = field.type
-                continue
+                if any(other.name is not None and (other.type.size or 0) >= (field.type.size or 0) for other in fields):
+                    # Prefer to write regular fields initially
+                    anonymous_struct = field.type
+                    continue
+
+                # No regular field covers all bytes of this anonymous struct, so write the struct itself
+                field.type._write(stream, data)
+                break
 
             # Write the value
             field.type._write(stream, getattr(data, field._name))
